@@ -498,6 +498,7 @@ func runC01(c *fw.Ctx) {
 	if vsched.DefaultPolicy == 0 {
 		runC01Table(c)
 	}
+	runC01Upload(c)
 	thorough := c.Tier == "thorough"
 	var item int64
 	sampled := 0
@@ -796,6 +797,9 @@ func replayC01(raw json.RawMessage) (string, bool) {
 	json.Unmarshal(raw, &fam)
 	if fam.Family == "c01table" {
 		return replayC01Table(raw)
+	}
+	if fam.Family == "c01upload" {
+		return replayC01Upload(raw)
 	}
 	var r struct {
 		Scenario c01Scenario `json:"scenario"`
